@@ -178,6 +178,15 @@ class PreconditionNotMet(Exception):
     pass
 
 
+class CalleePre(AssertionError):
+    """raised by a contract stub when the caller violates the callee's precondition: a legitimate
+    obligation failure of the caller (every callee precondition is a proof obligation of the caller)."""
+
+
+class HarnessBug(Exception):
+    pass
+
+
 class ClauseFailed(Exception):
     pass
 
@@ -451,6 +460,9 @@ def run_proof(harness: Harness, tier="quick", seed=0, crosscheck=3):
             tb = traceback.extract_tb(e.__traceback__)
             site = next((f"{f.filename.split('/')[-1]}:{f.lineno} in {f.name}" for f in reversed(tb)
                          if "/shapepy/" in f.filename), "harness")
+            inner = tb[-1].filename if tb else ""
+            if not isinstance(e, CalleePre) and ("/vfw/" in inner or "/z3/" in inner or site == "harness"):
+                raise HarnessBug(f"{type(e).__name__}: {e} at {inner.split('/')[-1]}:{tb[-1].lineno if tb else 0} (called from {site})") from e
             h.fail_path("no-unexpected-exception", f"{type(e).__name__}: {e} at {site}")
             npaths["exc"] += 1
             return "exc"
@@ -547,6 +559,15 @@ def run_proof(harness: Harness, tier="quick", seed=0, crosscheck=3):
                     rep["reproduced"] = True  # witnessed by the concrete call itself
                 else:
                     rep["reproduced"] = r["clauses"].get(cname) is False
+                if not rep["reproduced"]:
+                    # the counter-model is abstract (uninterpreted ghost functions) or inexact: search the
+                    # same clause on concrete inputs (seeded small rationals) -- DESIGN 2.6
+                    found = search_concrete(harness, list(rec["model"].keys()), cname, tier, seed)
+                    if found is not None:
+                        rep["model_abstract"] = rec["model"]
+                        rep["model"], rep["native"] = found
+                        rep["reproduced"] = True
+                        rep["found_by"] = "concrete search over seeded small rationals"
             reps.append(rep)
         out["refutations"] = reps
     out["status"] = status
@@ -579,6 +600,28 @@ def run_concrete(harness: Harness, values, tier="quick"):
     res["clauses"] = dict(h.conc_results)
     res["details"] = dict(h.conc_details)
     return res
+
+
+def search_concrete(harness, names, clause, tier, seed, tries=300):
+    import random
+
+    rnd = random.Random(seed + 4242)
+    names = [n for n in names if not n.startswith("__")]
+    pool = [Fraction(a, b) for a in range(-6, 7) for b in (1, 2, 3)]
+    for t in range(tries):
+        vals = {n: str(rnd.choice(pool) if t % 3 else Fraction(rnd.randint(-9, 9))) for n in names}
+        try:
+            r = run_concrete(harness, vals, tier)
+        except _Alarm:
+            raise
+        except BaseException:  # noqa: BLE001
+            continue
+        if clause == "no-unexpected-exception":
+            if r["outcome"] == "exception":
+                return vals, r
+        elif r["outcome"] != "precondition" and r["clauses"].get(clause) is False:
+            return vals, r
+    return None
 
 
 def run_bounded(harness: Harness, tier="quick", seed=0):
